@@ -260,7 +260,10 @@ PROPS = {
              "timeout": 300, "extra_modules": ["tokenizer"], "max_steps": 3000000, "quick": n <= 2}
             for n in (2, 3)
         ] + [
-            {"engine": "E2", "module": "lib", "harness": "h_write_with_banner", "functions": ["A2lFile::write", "load", "A2lFile::write_to_string"],
+{"engine": "E2", "module": "lib", "harness": "h_every_element_x2", "msg_prefix": "C01", "functions": ["load_from_string", "A2lFile::write_to_string", "specification::*::parse / stringify with two entries in every list"],
+             "bound": "the every-element document with every repeatable element twice (~2400 lines): strict load, byte-identical write, reload equal (== and field by field), second write identical", "timeout": 900, "extra_modules": ["tokenizer"], "max_steps": 1500000000,
+             "must_cover": ["generated document and fingerprint module are in place"]},
+                        {"engine": "E2", "module": "lib", "harness": "h_write_with_banner", "functions": ["A2lFile::write", "load", "A2lFile::write_to_string"],
              "bound": "write(path, banner) for documents starting with a token / an empty line / a comment x banner {none, plain, with quote and slash}: the written file loads to an equal model (9 cases; std::fs::write modelled by the virtual file system)", "timeout": 300, "extra_modules": ["tokenizer"], "must_cover": ["write_with_banner_end"], "validate": 9},
             {"engine": "E2", "module": "lib", "harness": "h_api_built_model", "functions": ["new", "specification::*::new (constructor defaults)", "A2lFile::write_to_string", "load_from_string", "generated PartialEq impls"],
              "bound": "one model built with new() / T::new() / push / field edits (RECORD_LAYOUT, COMPU_METHOD with COEFFS, MEASUREMENT with six kinds of sub-elements, CHARACTERISTIC, GROUP, FUNCTION; symbolic low address byte and symbol offset): write, strict reload equal (== and field by field), second write identical; then three edits and the same again", "timeout": 600, "extra_modules": ["tokenizer"], "max_steps": 60000000, "must_cover": ["api_built_model_end"]},
@@ -305,6 +308,9 @@ PROPS = {
              "bound": "0-2 blank lines before /end A2ML x 4 gaps inside an uninterpreted IF_DATA with two nested blocks, each from {space, LF, blank line, CRLF} (768 layouts)", "timeout": 600, "extra_modules": ["tokenizer"], "validate": 40, "quick": False},
             {"engine": "E2", "module": "lib", "harness": "h_layout_ifdata_small", "functions": ["load_from_string", "tokenizer::handle_a2ml", "ifdata::parse_unknown_taggedstruct", "a2ml::GenericIfData::write_item"],
              "bound": "0-2 blank lines before /end A2ML x 2 gaps (before /end INNER, before /end OUTER) from {space, LF, blank line, CRLF} (48 layouts)", "timeout": 400, "extra_modules": ["tokenizer"], "validate": 20},
+            {"engine": "E2", "module": "lib", "harness": "h_every_element_x2", "msg_prefix": "C05", "functions": ["load_from_string", "A2lFile::write_to_string", "specification::*::parse / stringify with two entries in every list"],
+             "bound": "the every-element document with every repeatable element twice (~2400 lines): strict load, byte-identical write, reload equal (== and field by field), second write identical", "timeout": 900, "extra_modules": ["tokenizer"], "max_steps": 1500000000, "quick": False,
+             "must_cover": ["generated document and fingerprint module are in place"]},
             {"engine": "E2", "module": "lib", "harness": "h_every_element_layout", "msg_prefix": "C05", "functions": ["load_from_string", "A2lFile::write_to_string", "specification::*::parse / stringify of every element (item_location slots)", "writer::Writer::add_whitespace"],
              "bound": "the every-element document with staggered parameter positions (same line / next line / blank line in rotation; 1093 lines): reproduced byte for byte", "timeout": 900, "extra_modules": ["tokenizer"], "max_steps": 300000000,
              "must_cover": ["generated document and fingerprint module are in place"]},
